@@ -109,7 +109,28 @@ def pair_case(ctx, i):
     beta = SI.si(beta_q) if helical else 0.0
     # every gear is evaluated twice with different torques on the same object (a second evaluation must not reuse anything
     # of the first one)
-    for k, g in enumerate(gears + gears):
+    def second_design():
+        # the first gear goes into a second design: mated with ANOTHER slave (other teeth number, modulus, face width)
+        mu = rng.choice(SI.units('Length'))
+        kw = dict(module=U().Length(SI.from_si('Length', mod_si, mu), mu), face_width=rq(rng, 'Length', 2e-3, 3e-2), elastic_modulus=rq(rng, 'Stress', 1e9, 3e11))
+        if helical:
+            kw['helix_angle'] = beta_q
+        g2 = cls(name='second', n_teeth=rng.randint(10, 300), inertia_moment=J, **kw)
+        try:
+            B.g().ut.add_gear_mating(master=gears[0], slave=g2, efficiency=0.8)
+        except Exception:
+            ctx.count('mating_rejected_unit_noise')
+            return []
+        ctx.count('gears_mated_a_second_time')
+        return [gears[0], g2]
+    todo = gears + gears + [second_design]
+    k = -1
+    while todo:
+        g = todo.pop(0)
+        if g is second_design:
+            todo += second_design()
+            continue
+        k += 1
         role = 'master' if g.mating_role is mo().MatingMaster else 'slave'
         Tl, Td = set_torques(g, rng, 5.0)
         Tref = Tl if role == 'master' else Td
@@ -167,44 +188,57 @@ def worm_case(ctx, i):
     except Exception as ex:
         ctx.violation('C09:valid-worm-pair-rejected', {'pa': pa, 'unit': pu, 'exception': type(ex).__name__ + ': ' + str(ex)[:150]}, case)
         return
-    worm_master = i % 2 == 0
     f = 0.02
-    try:
-        if worm_master:
-            B.g().ut.add_worm_gear_mating(master=wg, slave=ww, friction_coefficient=f)
-        else:
-            B.g().ut.add_worm_gear_mating(master=ww, slave=wg, friction_coefficient=f)
-    except ValueError:
-        ctx.count('worm_mating_rejected')
-        return
-    if hx_w != hx_h:
-        ctx.count('unequal_helix_worm_pairs')
-    Tl, Td = set_torques(ww, rng, 5.0)
-    Tref = Td if worm_master else Tl
-    wit = {'pressure_angle_deg': pa, 'worm_is_master': worm_master, 'worm_helix_deg': hx_w, 'wheel_helix_deg': hx_h, 'worm_diameter': d, 'face_width': b, 'module': mod,
-           'n_teeth': ww.n_teeth, 'load_torque': ww.load_torque, 'driving_torque': ww.driving_torque}
-    try:
-        ww.compute_tangential_force()
-        ww.compute_bending_stress()
-    except Exception as ex:
-        ctx.violation('C09:compute-raised', dict(wit, exception=type(ex).__name__ + ': ' + str(ex)[:150]), case)
-        return
-    ctx.count('evaluations')
-    Ft = RG.tangential_force(Tref, SI.si(mod) * ww.n_teeth)
-    sb = RG.worm_wheel_bending(Ft, SI.si(d), math.radians(hx_w), ww.n_teeth, SI.si(b), pa)
-    ctx.count('force_checks')
-    ctx.count('wormwheel_bending_checks')
-    if not close(float(ww.lewis_factor), RG.WORM[pa][1], 1e-12):
-        ctx.violation('C09:lewis-factor', dict(wit, got=float(ww.lewis_factor), reference=RG.WORM[pa][1]), case)
-        return
-    if not close(SI.si(ww.tangential_force), Ft):
-        ctx.violation('C09:tangential-force', dict(wit, got=SI.si(ww.tangential_force), reference=Ft), case)
-        return
-    if not close(SI.si(ww.bending_stress), sb):
-        ctx.violation('C09:worm-wheel-bending-stress', dict(wit, got=SI.si(ww.bending_stress), reference=sb, b_over_067d=SI.si(b) / (0.67 * SI.si(d))), case)
-        return
-    if Tref != 0:
-        ctx.seen('nontrivial', f'WormWheel|{"slave" if worm_master else "master"}|{pa}|{b.unit}{d.unit}')
+    for rnd in range(2):
+        if rnd == 1:
+            # the SAME wheel goes into a second design: another worm (other diameter and helix angle), possibly the other role;
+            # nothing computed for the first mating may survive
+            hx_w = GEN.sig(rng.uniform(2, RG.WORM[pa][0]), 3)
+            d = rq(rng, 'Length', 4e-3, 4e-2)
+            try:
+                wg = mo().WormGear(name='wg2', n_starts=rng.randint(1, 4), inertia_moment=J, pressure_angle=paq(), helix_angle=U().Angle(hx_w, 'deg'), reference_diameter=d)
+            except Exception as ex:
+                ctx.violation('C09:valid-worm-pair-rejected', {'pa': pa, 'unit': pu, 'exception': type(ex).__name__ + ': ' + str(ex)[:150]}, case)
+                return
+        worm_master = (i % 2 == 0) if rnd == 0 else (rng.random() < 0.5)
+        try:
+            if worm_master:
+                B.g().ut.add_worm_gear_mating(master=wg, slave=ww, friction_coefficient=f)
+            else:
+                B.g().ut.add_worm_gear_mating(master=ww, slave=wg, friction_coefficient=f)
+        except ValueError:
+            ctx.count('worm_mating_rejected')
+            return
+        if rnd == 1:
+            ctx.count('wheels_mated_a_second_time')
+        if hx_w != hx_h:
+            ctx.count('unequal_helix_worm_pairs')
+        Tl, Td = set_torques(ww, rng, 5.0)
+        Tref = Td if worm_master else Tl
+        wit = {'pressure_angle_deg': pa, 'worm_is_master': worm_master, 'worm_helix_deg': hx_w, 'wheel_helix_deg': hx_h, 'worm_diameter': d, 'face_width': b, 'module': mod,
+               'n_teeth': ww.n_teeth, 'load_torque': ww.load_torque, 'driving_torque': ww.driving_torque, 'mating_number_of_this_wheel': rnd + 1}
+        try:
+            ww.compute_tangential_force()
+            ww.compute_bending_stress()
+        except Exception as ex:
+            ctx.violation('C09:compute-raised', dict(wit, exception=type(ex).__name__ + ': ' + str(ex)[:150]), case)
+            return
+        ctx.count('evaluations')
+        Ft = RG.tangential_force(Tref, SI.si(mod) * ww.n_teeth)
+        sb = RG.worm_wheel_bending(Ft, SI.si(d), math.radians(hx_w), ww.n_teeth, SI.si(b), pa)
+        ctx.count('force_checks')
+        ctx.count('wormwheel_bending_checks')
+        if not close(float(ww.lewis_factor), RG.WORM[pa][1], 1e-12):
+            ctx.violation('C09:lewis-factor', dict(wit, got=float(ww.lewis_factor), reference=RG.WORM[pa][1]), case)
+            return
+        if not close(SI.si(ww.tangential_force), Ft):
+            ctx.violation('C09:tangential-force', dict(wit, got=SI.si(ww.tangential_force), reference=Ft), case)
+            return
+        if not close(SI.si(ww.bending_stress), sb):
+            ctx.violation('C09:worm-wheel-bending-stress', dict(wit, got=SI.si(ww.bending_stress), reference=sb, b_over_067d=SI.si(b) / (0.67 * SI.si(d))), case)
+            return
+        if Tref != 0:
+            ctx.seen('nontrivial', f'WormWheel|{"slave" if worm_master else "master"}|{pa}|{b.unit}{d.unit}')
 
 
 def subsets(keys):
